@@ -214,6 +214,9 @@ fn other_lengths(c: &Case) -> Vec<usize> {
 }
 
 pub fn run_op(ctx: &mut Ctx, op: &str) {
+    if ctx.hang_limit_reached() {
+        return;
+    }
     let Some(c) = parse_op(op) else {
         ctx.record(op.to_string(), "bad-op".into(), false);
         return;
